@@ -384,6 +384,14 @@ def check(col, prog, tier, profile, fixture=None):
             if e.kind == "call" and e.extra.get("name") == "take":
                 lens = [x.res for x in st.event_list() if x.kind == "call" and x.extra.get("name") == "len"]
                 tk = tk or any(s[0] == "bin" and s[1] == "Sub" and s[3] == mk_int(1) for s in [e.args[1]])
+            # or the destination is narrowed first: res[..k] / res[..min(res.len(), k)] with k = a.len()+b.len()-1
+            if e.kind == "call":
+                for a_ in e.args:
+                    for s in ([a_] + list(subterms(a_))) if isinstance(a_, tuple) else []:
+                        if s[0] == "range" and s[1] == ("deref", ("param", 4, I.names.get(4))) and s[2][0] == "agg" and str(s[2][1][1]).endswith("RangeTo"):
+                            bound = s[2][2][0]
+                            if any(x[0] == "bin" and x[1] == "Sub" and x[3] == mk_int(1) for x in [bound] + list(subterms(bound))):
+                                tk = True
     if tk:
         col.ok("P5" + sfx, b.loc(), "%s|take-len" % fk(b), "at most a.len()+b.len()-1 results are added")
     else:
